@@ -82,8 +82,8 @@ def scenario(rng, reactive=False, crash=True):
 
 def run_one(sc):
     """returns (violation or None, runner-like holder for traces, feedback_sensitive)."""
-    c = Cluster(sc['names'], sc['phens'], cache=sc['cache'])
-    s = Cluster(['S'], sc['phens'], cache=sc['cache'])
+    c = Cluster(sc['names'], sc['phens'], cache=sc['cache'], via_setup=sc.get('via_setup', False))
+    s = Cluster(['S'], sc['phens'], cache=sc['cache'], via_setup=sc.get('via_setup', False))
     single = s.insts['S']
     alive = list(sc['names'])
     holder = type('H', (), {})()
@@ -183,9 +183,17 @@ def run(ctx: Ctx) -> Result:
                 for crash_at in (0, 1, 2, 3):
                     scs.append({'names': ['A', 'B', 'C'], 'phens': gc.CONFLICT, 'cache': 0, 'stream': [0, 1, 2, 3],
                                 'assign': [proc] * 4, 'crash_at': crash_at, 'crashed': [lost]})
+        # engines and distributed components exactly as BoboSetupSimple / BoboSetupSimpleDistributed build them (their own
+        # identifier generators, validator, default memory and subscriptions): every split of short streams, one crash
+        for st in ([0, 0, 1, 2, 3], [0, 1, 1, 2, 3]):
+            for assign in itertools.product('AB', repeat=len(st)):
+                for crash_at, crashed in ((None, []), (2, ['A']), (3, ['B'])):
+                    scs.append({'names': ['A', 'B'], 'phens': gc.CONFLICT, 'cache': 0, 'stream': st, 'assign': list(assign),
+                                'crash_at': crash_at, 'crashed': crashed, 'via_setup': True})
     for sc in scs:
         bad, holder, fb = run_one(sc)
-        holders.append(holder)
+        if not sc.get('via_setup'):        # (setup-built engines draw time-based identifiers: oracle only, no model replay)
+            holders.append(holder)
         res.add_case({k: sc[k] for k in ('names', 'stream', 'assign', 'crash_at', 'crashed')}, nontrivial=True)
         res.count('crash_scenarios' if sc['crash_at'] is not None else 'no_crash_scenarios')
         res.count('feedback_sensitive' if fb else 'feedback_inert')
